@@ -34,7 +34,8 @@ def _templates():
       multi_d=pg.Dict(m=pg.manyof(2, [pg.oneof([1, 2]), 'k', pg.Dict(z=pg.oneof(['u', 'v']))], distinct=True, sorted=False)),
       multi_s=pg.Dict(m=pg.manyof(2, [1, 2, 3], distinct=False, sorted=True), n=pg.manyof(2, ['a', 'b'], distinct=False, sorted=False)),
       in_list=pg.List([pg.oneof(['a', 'b']), pg.Dict(q=pg.oneof([1, 2])), 5]),
-      classes=pg.Dict(o=pg.oneof([Layer(units=pg.oneof([1, 2])), Sub(units=pg.oneof([3, 4])), Layer(units=5, act='tanh')])),
+      classes=pg.Dict(o=pg.oneof([Layer(units=pg.oneof([1, 2])), Sub(units=pg.oneof([1, 2])), Layer(units=5, act='tanh')])),
+      derived=pg.Dict(a=pg.oneof([1, 2]), b=pg.hyper.ValueReference(['a']), c=pg.Dict(d=pg.hyper.ValueReference(['a']), e=pg.oneof(['x', 'y']))),
       floaty=pg.Dict(f=pg.floatv(0.0, 1.0), c=pg.oneof([1, 2])),
   )
 
@@ -90,6 +91,8 @@ def ref_decode(node, cur, nums):
     v = _conc(cur.next(), 5) / 4.0
     nums.append(v)
     return v
+  if isinstance(node, pg.hyper.ValueReference):
+    return ('ref', str(node.reference_paths[0]))
   if isinstance(node, pg.Dict):
     return {k: ref_decode(v, cur, nums) for k, v in node.sym_items()}
   if isinstance(node, pg.List):
@@ -97,6 +100,19 @@ def ref_decode(node, cur, nums):
   if isinstance(node, pg.Object):
     return (type(node), {k: ref_decode(v, cur, nums) for k, v in node.sym_items()})
   return node
+
+
+def _resolve_refs(ref, root):
+  if isinstance(ref, tuple) and len(ref) == 2 and ref[0] == 'ref':
+    cur = root
+    for k in pg.KeyPath.parse(ref[1]).keys:
+      cur = cur[k]
+    return cur
+  if isinstance(ref, dict):
+    return {k: _resolve_refs(v, root) for k, v in ref.items()}
+  if isinstance(ref, list):
+    return [_resolve_refs(v, root) for v in ref]
+  return ref
 
 
 def _matches(value, ref):
@@ -144,6 +160,7 @@ def h_decode(params, d0, d1, d2, d3, d4, d5, d6, d7):
     v = t.decode(dna)
     if _has_placeholder(v):
       return Violation(f'decode:placeholder_left:{name}', f'{nums!r} -> {v!r}')
+    ref = _resolve_refs(ref, ref)
     if not _matches(v, ref):
       return Violation(f'decode:wrong_value:{name}', f'{nums!r} -> {v!r}, expected {ref!r}')
     if isinstance(v, pg.Symbolic):
@@ -252,6 +269,30 @@ def h_where(params, d0, d1):
   return None
 
 
+def h_where_none(params, pick):
+  """A `where` filter that selects no placeholder: decode(DNA(None)) still must not touch the template (derived
+  values are written into a copy), and the same hyper value keeps its full space afterwards."""
+  with untraced():
+    value = pg.Dict(a=pg.oneof([1, 2]), b=pg.hyper.ValueReference(['a']), c=pg.Dict(d=pg.hyper.ValueReference(['a'])))
+    before = pg.to_json(value)
+    t = pg.template(value, where=lambda x: isinstance(x, pg.hyper.ManyOf))
+    reach('decode')
+    v = t.decode(pg.DNA(None))
+    if v is value:
+      return Violation('where_none:decode_returns_the_template_value', '')
+    if pg.to_json(value) != before:
+      return Violation('where_none:template_modified', '')
+    t2 = pg.template(value)
+    if t2.dna_spec().space_size != 2:
+      return Violation('where_none:space_changed_after_decode', str(t2.dna_spec().space_size))
+  p = _conc(pick, 2)
+  with untraced():
+    v2 = t2.decode(pg.DNA(p))
+    if v2.a != [1, 2][p] or v2.b != v2.a or v2.c.d != v2.a:
+      return Violation('where_none:derived_value_wrong', repr(v2))
+  return None
+
+
 def shards(tier, seed):
   quick = tier == 'quick'
   b = 40 if quick else 400
@@ -262,6 +303,7 @@ def shards(tier, seed):
     if name != 'floaty':
       out.append(dict(name=f'iterate:{name}', fn='h_iterate', params=dict(tmpl=name), args=[('n', 'int')], budget_s=b, per_path_s=20))
   out.append(dict(name='where', fn='h_where', params={}, args=[('d0', 'int'), ('d1', 'int')], budget_s=b, per_path_s=20))
+  out.append(dict(name='where_none', fn='h_where_none', params={}, args=[('pick', 'int')], budget_s=b, per_path_s=20))
   return out
 
 
